@@ -19,6 +19,7 @@ CONSTANTS
   Record = FALSE
   History = FALSE
   Depth = 0
+  Edges = FALSE
   Deviations = {}
 INVARIANTS TypeOK P_C11_Slices P_C11_Bounded P_C11_WriteAccepted P_C11_WriteRefused Lemma_PosHalf
 CHECK_DEADLOCK FALSE
